@@ -88,7 +88,10 @@ def _format_column(col, max_preview: int | None = None) -> List[str]:
 		elif v is None:
 			out.append('None')
 		elif col._dtype and col._dtype.kind is float:
-			out.append(f"{v:.1f}" if v == int(v) else f"{v:g}")
+			if v != v or v in (float('inf'), float('-inf')):
+				out.append(f"{v:g}")  # nan / inf / -inf have no int()
+			else:
+				out.append(f"{v:.1f}" if v == int(v) else f"{v:g}")
 		elif col._dtype and col._dtype.kind is int:
 			out.append(str(v))
 		elif col._dtype and col._dtype.kind is date:
